@@ -225,6 +225,14 @@ func Note(format string, a ...any) {
 	}
 }
 
+// Emit records a harness observation (label, value) in the execution record; the position in Exec.Events is the
+// logical time of the observation.
+func Emit(label string, v any) {
+	if active.Load() {
+		call(request{kind: opNote, label: label, val: v, n: 1, tok: newTok()})
+	}
+}
+
 // Now returns the virtual time of the execution.
 func Now() time.Duration {
 	if !active.Load() {
